@@ -394,6 +394,10 @@ func (w *Worker) Choose(n int) int {
 	if n <= 1 {
 		return 0
 	}
+	if n > 32000 {
+		// decisions are stored as int16
+		w.ip.unsupported("choice among %d alternatives (limit 32000; split it)", n)
+	}
 	if w.pos < len(w.prefix) {
 		d := w.prefix[w.pos]
 		w.pos++
